@@ -44,6 +44,9 @@ def gen_world_files(rng):
     files['pa/__init__.py'] = 'from pa import sa\nfrom . import sb\n'
     files['pa/sa.py'] = 'import ma\n\n\ndef func(z):\n    return ma.func(z)\n\n\nCONST_SA = ma.NUM\n'
     files['pa/sb.py'] = 'from pa.sa import func as sa_func\n\nres_sb = sa_func(1)\n'
+    # a nested sub-package that refers to the top-level package (changed by a package rename)
+    files['pa/inner/__init__.py'] = ''
+    files['pa/inner/deep.py'] = 'import pa\nfrom pa import sa\n\nDEEP = sa.func(1)\nX_DEEP = pa.sa.CONST_SA\n'
     main = [
         'import ma',
         'from mb import use_b, SubK',
@@ -103,6 +106,8 @@ REFACTORINGS = [
     ('rename', 'ma.py', 'VALUE', 1, {}),
     ('rename', 'ma.py', 'kattr', 1, {}),
     ('rename', 'pa/sa.py', 'CONST_SA', 1, {}),
+    ('rename', 'pa/inner/deep.py', 'import pa', 8, {}),   # package rename seen from a nested sub-package
+    ('rename', 'pa/inner/deep.py', 'DEEP', 1, {}),
     ('inline', 'main.py', 'temp', 1, {}),
     ('inline', 'main.py', 'value', 1, {}),
     ('inline', 'main.py', 'big', 1, {}),
@@ -455,9 +460,12 @@ class C07(base.Engine):
                             stats['applied'] += 1
                         elif isinstance(res, list) and res and res[0] == 'EXC':
                             stats['apply_failed:%s' % res[1]] += 1
-                            if desc is not None and res[1] != 'RefactoringError':
-                                # a failing apply() may have written some files; resync the model to the disk
-                                pass
+                            if res[1] != 'RefactoringError':
+                                # no disk fault was injected: apply() of a computed refactoring may refuse
+                                # (RefactoringError) but must not die of anything else
+                                problems.append(('apply_raised:%s' % res[1], {'op': ev['i'], 'kind': kind, 'args': args}))
+                            # the statement promises nothing about the disk after a failed apply(): stop here
+                            return self._done(problems, stats, events_all, case)
                     d = compare_snap(ev.get('snap') or {}, model)
                     if d:
                         which = 'I2:after_apply' if op['op'] == 'refactor_apply' else 'I1:changed_before_apply'
